@@ -31,4 +31,10 @@ def run(rep, fb, tier):
     from ..rules import lints2 as _l2
     _l2.rule_form_array_simplify(rep, fb)
     _l2.rule_dtype_case_methods(rep, fb)
+    from ..rules import binding as _bd
+    _bd.rule_pickle_state(rep, fb)
+    _bd.rule_exception_unthrown(rep, fb)
+    from ..rules import pyrules as _pr7
+    _pr7.rule_py_array_outermost(rep)
+    _bd.rule_def_arg_order(rep, fb)
     rep.units = fb.units
